@@ -27,8 +27,8 @@ def run(tier, seed):
     chk.stats["mpi_singleton_runs_returned"] = sum(1 for a in srecs if not a)
     # multi-rank shutdown: ranks leave the main loop at different moments, control messages may still be in flight
     chk.soft_fraction = 0.3
-    mcases = mpi_common.make_cases("C08", tier, seed, 36 if tier == "quick" else 300, variants=(0, 1, 2, 0, 3), fault_rates=(0, 40, 0),
-                                   layouts=[(2, 2), (3, 2), (2, 1), (3, 1), (2, 3), (4, 1)], gvts=[1000, 0, 200, 5000, 20])
+    mcases = mpi_common.make_cases("C08", tier, seed, 48 if tier == "quick" else 400, variants=(2, 0, 3, 1, 0), fault_rates=(0, 40, 0),
+                                   layouts=[(2, 2), (3, 2), (2, 1), (3, 1), (2, 3), (4, 1)], gvts=[0, 20, 200, 1, 1000, 5000])
     mrecs = mpi_common.run_mpi_cases(chk, mcases, timeout=30 if tier == "quick" else 90, retries=0)
     chk.stats["mpi_runs_returned"] = sum(1 for c, r, t, a in mrecs if not a)
     chk.rule = ("one case = a short run (1.5k-4.5k events) of a generated model ended by predicates (unbalanced targets: some LPs done at init or after a few "
